@@ -12,7 +12,7 @@ Definition err_name (e : err) : string :=
   | ETooLarge => "MessageTooLarge" | EUnderDelim => "MessageLengthUnderDelimiter"
   | EInvalidProto => "InvalidProtobufMessage" | EConnection => "Connection"
   | ENoByteToRead => "NoByteToRead" | ENoByteWritten => "NoByteWritten"
-  | EWrite => "Write"
+  | EWrite => "Write" | ETimeout => "TimeoutReached"
   end.
 
 Definition st_toks (c : chan) : list tok :=
@@ -84,6 +84,16 @@ Definition step (st : rstate) (op : list tok) : rstate * list tok :=
     else if name =? "drain_check" then
       let '(c2, s2, ms) := drain_rounds (decodable_of (rbad st)) 64 c s [] in
       (mkr c2 s2 (rbad st), flat_map res_msg_toks ms ++ [TS "st"] ++ st_toks c2)
+    else if name =? "read_b" then
+      let '(c', s', r) := read_blocking (decodable_of (rbad st)) c s in
+      (mkr c' s' (rbad st), res_msg_toks r ++ st_toks c')
+    else if name =? "write_b" then
+      match args with
+      | [TB p] =>
+        let '(c', s', r) := write_blocking c (mksock (inq s) (ineof s) [] []) p in
+        (mkr c' (mksock (inq s') (ineof s') [] []) (rbad st),
+         res_unit_toks r ++ [TB (outq s')] ++ st_toks c')
+      | _ => bad end
     else if name =? "extract" then
       let '(c', s', ms) := extract_loop (decodable_of (rbad st)) 1000 c s [] in
       (mkr c' s' (rbad st), map (fun m => TB m) ms ++ [TS "st"] ++ st_toks c')
